@@ -159,6 +159,7 @@ package routine
 //
 //@ closure (*RoutineContainer).SetContext$1
 //@   props C04 C05 C14
+//@   assert exit: samestate[C05]: k.routine == csold(k.routine) && (scof(k) != nil ==> cast(scof(k), StateRoutineContainer).s == csold(cast(scof(k), StateRoutineContainer).s))
 //@   assert exit: nosuccessrerun: csold(k.routine) != nil && csold(k.routine.success) ==> k.lastCh == csold(k.lastCh)
 //@   assert exit: failedonlyrestart: !restart && csold(k.routine) != nil && csold(k.routine.err) != nil ==> k.lastCh == csold(k.lastCh)
 //
